@@ -258,7 +258,7 @@ def _plan(draws, spec, idx, scenario):
                 path, what = base.positions[
                     fs.below(len(base.positions), "fault_at")]
                 plan.faults[k][path] = "null" if what == "item" else (
-                    "err", "null", "errx")[fs.below(3, "fault_kind")]
+                    "err", "null", "errx", "errs")[fs.below(4, "fault_kind")]
             plan.exps.append(expected_response(
                 spec, op, World(spec, plan.wseeds[k], plan.faults[k]),
                 root_value=ev))
